@@ -304,6 +304,9 @@ func vfRunC03(ctx *vfCtx, c vfCaseC03) {
 	scratch.Close()
 	ctx.Class(fmt.Sprintf("goroutines=%d", len(c.Gs)))
 	ctx.Class(fmt.Sprintf("window=%d", c.Window))
+	// the peer's counters belong to its goroutine: read them once it has finished (an abandoned
+	// ReadDirContext may still be answered while the calls above have long returned)
+	vfEndSession(ctx, "C03", s, baseline)
 	if s.peer.maxOut >= 2 {
 		ctx.Class("held>=2")
 	}
@@ -313,7 +316,6 @@ func vfRunC03(ctx *vfCtx, c vfCaseC03) {
 	if len(c.Gs) >= 2 && s.peer.outOfFIFO > 0 && s.peer.maxOut >= 2 {
 		ctx.NonTrivial()
 	}
-	vfEndSession(ctx, "C03", s, baseline)
 }
 
 func TestVerifC03(t *testing.T) {
